@@ -29,7 +29,7 @@ from vlib.runner import REPO, VERIF
 ID = "C14"
 EXTRACTORS = ["selectors", "prank"]
 LEAN_MODULES = ["HalmosVerif.Props.C14"]
-RULE = ("A: prank histories (exhaustive over a 16-symbol alphabet up to length 3 quick / 4 thorough, then random trees up to "
+RULE = ("A: prank histories (exhaustive over an 18-symbol alphabet up to length 3 quick / 4 thorough, then random trees up to "
         "length 7 with nesting depth <= 3, all four call kinds, `if` on symbolic calldata bits, symbolic prank addresses) compiled "
         "to EVM programs whose frames record CALLER/ORIGIN; one case = one (history, path); distinct = distinct flattened "
         "history; non-trivial = the history contains a prank-family op and a call/creation.  B: state-cheatcode programs "
@@ -60,6 +60,9 @@ A160 = 1 << 160
 MAIN = 0x1000
 REPORTER = 0x2000
 EOA = 0xDEAD
+IDENTITY = 0x4           # identity precompile
+WATCH = [MAIN, EOA, 0xA11CE, 0xB0B]   # balances recorded after every value-bearing call
+DEAL_EACH = 1000         # balance dealt to every potential caller when a history moves value
 CHILD_BASE = 0x3000
 OBS = 0x1000          # observation buffer in memory
 PTR = 0x60            # memory slot holding the write pointer
@@ -214,6 +217,16 @@ class Compiler:
                 items += self.cheat(op[1])
             elif k == "eoa":
                 items += plain_call(op[1] if len(op) > 1 else "c", EOA)
+            elif k == "eoav":      # value-bearing CALL to the code-less account, then the balances of the watch list
+                items += [0, 0, 0, 0, ("push", op[1]), ("push", EOA, 20), "GAS", "CALL", "POP"]
+                for a in WATCH:
+                    items += [("push", a, 20), "BALANCE", ("push", PTR), "MLOAD", "MSTORE"] + bump_ptr([32])
+            elif k == "pre":       # the identity precompile
+                items += plain_call(op[1], IDENTITY)
+            elif k == "bal":       # record BALANCE(addr)
+                items += [("push", op[1], 20), "BALANCE", ("push", PTR), "MLOAD", "MSTORE"] + bump_ptr([32])
+            elif k == "deal":
+                items += asm.cheat_call(asm.HEVM_ADDRESS, SEL["deal"], [[("push", op[1])], [("push", op[2])]])
             elif k == "nest":
                 addr = self.frame(op[2], is_main=False)
                 op_addr[id(op)] = addr
@@ -241,6 +254,7 @@ class Compiler:
 
 
 op_addr = {}   # id(nest op) -> child address (filled by the compiler)
+STALE = []     # deferred 'model stale' findings (see compare_prank)
 
 
 def flatten(ops, args, state):
@@ -268,6 +282,14 @@ def flatten(ops, args, state):
             toks.append(f"c:{'s' if op[1] == 'vmstatic' else 'c'}:{a:x}:0")
         elif k == "eoa":
             toks.append(f"c:{op[1] if len(op) > 1 else 'c'}:{EOA:x}:0")
+        elif k == "eoav":
+            toks += [f"val:{op[1]:x}", f"c:c:{EOA:x}:0"] + [f"bal:{a:x}" for a in WATCH]
+        elif k == "pre":
+            toks.append(f"c:{op[1]}:{IDENTITY:x}:0")
+        elif k == "bal":
+            toks.append(f"bal:{op[1]:x}")
+        elif k == "deal":
+            toks += [f"c:c:{HEVM:x}:0", f"deal:{op[1]:x}:{op[2]:x}"]
         elif k == "nest":
             toks += [f"c:{op[1]}:{op_addr[id(op)]:x}:1"] + flatten(op[2], args, state) + ["ret"]
         elif k == "if":
@@ -293,14 +315,33 @@ def parse_hist_reply(r):
     return parse_view(m.group(1)), parse_view(m.group(2))
 
 
+def lean_toks(toks):
+    """the tokens Driver/Prank understands (pseudo tokens val:/bal:/deal: are bookkeeping of this harness)"""
+    return [t for t in toks if not t.startswith(("val:", "bal:", "deal:"))]
+
+
 def expected_buffer(toks, obs):
-    """the words the main frame returns: (sender, origin) of every call/creation event that enters a frame"""
+    """the words the main frame returns: (sender, origin) of every call/creation event that enters a frame, and the
+    balances read by `bal` — value moves from the msg.sender the machine (Model or Spec) gives the call to its target"""
     out, i = [], 0
+    balances, pending_value = {}, 0
     for t in toks:
-        if t.startswith("c:") or t.startswith("cr:"):
+        if t.startswith("deal:"):
+            _, a, v = t.split(":")
+            balances[int(a, 16)] = int(v, 16)
+        elif t.startswith("val:"):
+            pending_value = int(t[4:], 16)
+        elif t.startswith("bal:"):
+            out.append(balances.get(int(t[4:], 16), 0))
+        elif t.startswith("c:") or t.startswith("cr:"):
             enters = t.startswith("cr:") or t.endswith(":1")
-            if i < len(obs) and enters:
-                out += [obs[i][2], obs[i][3]]
+            if i < len(obs):
+                if pending_value:
+                    balances[obs[i][2]] = balances.get(obs[i][2], 0) - pending_value
+                    balances[obs[i][0]] = balances.get(obs[i][0], 0) + pending_value
+                if enters:
+                    out += [obs[i][2], obs[i][3]]
+            pending_value = 0
             i += 1
     return out
 
@@ -320,7 +361,8 @@ def opclass(tok):
     p = tok.split(":")
     if p[0] == "c":
         to = int(p[2], 16)
-        tgt = {HEVM: "vm", SVM: "svm", CONSOLE: "console", EOA: "no-code-account", REPORTER: "reporter"}.get(to, "nested-frame")
+        tgt = {HEVM: "vm", SVM: "svm", CONSOLE: "console", EOA: "no-code-account", REPORTER: "reporter",
+               IDENTITY: "precompile"}.get(to, "nested-frame")
         return f"{KIND_OPCODE[p[1]].lower()}-to-{tgt}"
     return {"p": "prank", "p2": "prank2", "sp": "startPrank", "sp2": "startPrank2", "stop": "stopPrank", "cr": "create",
             "ret": "return", "tx": "new-transaction"}[p[0]]
@@ -330,9 +372,38 @@ def has_prank_and_call(toks):
     return any(t.split(":")[0] in ("p", "p2", "sp", "sp2") for t in toks) and any(t[0] == "c" for t in toks)
 
 
+def needs_value(ops):
+    return any(o[0] == "eoav" or (o[0] == "nest" and needs_value(o[2])) or (o[0] == "if" and (needs_value(o[2]) or needs_value(o[3])))
+               for o in ops)
+
+
+def prank_addrs(ops, out):
+    for o in ops:
+        if o[0] in ("p", "sp", "p2", "sp2") and not isinstance(o[1], tuple):
+            out.add(o[1] % A160)
+        elif o[0] == "nest":
+            prank_addrs(o[2], out)
+        elif o[0] == "if":
+            prank_addrs(o[2], out)
+            prank_addrs(o[3], out)
+    return out
+
+
+def count_nests(ops):
+    return sum((1 + count_nests(o[2])) if o[0] == "nest" else (count_nests(o[2]) + count_nests(o[3])) if o[0] == "if" else 0 for o in ops)
+
+
+def with_deals(ops):
+    """histories that move value start by dealing a known balance to every account that can be the payer"""
+    if not needs_value(ops) or (ops and ops[0][0] == "deal"):
+        return ops
+    payers = sorted(prank_addrs(ops, {MAIN}) | {CHILD_BASE + 0x100 * i for i in range(count_nests(ops))})
+    return [("deal", a, DEAL_EACH) for a in payers] + ops
+
+
 class PrankCase:
     def __init__(self, ops, nargs=0, tag=""):
-        self.ops, self.nargs, self.tag = ops, nargs, tag
+        self.ops, self.nargs, self.tag = with_deals(ops), nargs, tag
 
 
 def run_prank_cases(ctx, cases, inputs_per_case=1):
@@ -366,7 +437,7 @@ def run_prank_cases(ctx, cases, inputs_per_case=1):
             toks = ["tx:cafe:beef:1000"] + flatten(case.ops, args, {"created": 0})
             jobs.append((case, scn, sr, args, toks))
     ctx.extra["prank_sevm_wall_s"] = round(ctx.extra.get("prank_sevm_wall_s", 0) + t_run, 1)
-    replies = ctx.lean("Prank").ask(["hist " + " ".join(t) for *_, t in jobs])
+    replies = ctx.lean("Prank").ask(["hist " + " ".join(lean_toks(t)) for *_, t in jobs])
     pending = []
     for (case, scn, sr, args, toks), rep in zip(jobs, replies):
         (m_err, m_obs, m_frames), (s_err, s_obs, s_frames) = parse_hist_reply(rep)
@@ -380,6 +451,7 @@ def flush_pending(ctx, pending):
     if not pending:
         return
     lines, spans = [], []
+    pending = [(lean_toks(p[0]),) + tuple(p[1:]) for p in pending]
     for toks, *_ in pending:
         spans.append((len(lines), len(toks)))
         lines += ["hist " + " ".join(toks[:i]) for i in range(1, len(toks) + 1)]
@@ -402,9 +474,11 @@ def compare_prank(ctx, D, case, scn, sr, args, toks, model, spec, pending):
     s_err, s_obs, s_frames = spec
     hist = " ".join(toks)
     ctx.case(hist, nontrivial=has_prank_and_call(toks))
-    for t in toks:
+    for t in lean_toks(toks):
         ctx.count("op:" + opclass(t))
-    ctx.count(f"hist-len:{min(len([t for t in toks if t != 'ret']) - 1, 9)}")
+    if any(t.startswith("val:") for t in toks):
+        ctx.count("prank:history-with-value-transfer")
+    ctx.count(f"hist-len:{min(len([t for t in lean_toks(toks) if t != 'ret']) - 1, 9)}")
     replay = {"kind": "prank", "ops": case.ops, "nargs": case.nargs, "args": [hex(a) for a in args], "flat": hist}
     if sr.escaped:
         ctx.violation("prank:exception-escapes-SEVM.run:" + sr.escaped.split(":")[0],
@@ -465,8 +539,12 @@ def compare_prank(ctx, D, case, scn, sr, args, toks, model, spec, pending):
                    "spec": None if exp_s is None else [hex(x) for x in exp_s], "spec_error": s_err,
                    "contracts": {hex(a): c.hex() for a, c in scn.contracts.items()}})
     if spec_ok and not model_ok:
-        raise RuntimeError(f"C14 model stale: SEVM agrees with Spec.Foundry but not with Model.Prank on [{hist}] "
-                           f"observed={replay['observed']} model={replay['model']} trace={replay.get('trace')}")
+        # the Model no longer describes the code (the Spec does): a broken correspondence obligation, raised at the END of
+        # correspond() so that the search for inputs on which the code violates the Spec still covers everything
+        STALE.append(f"C14 model stale: SEVM agrees with Spec.Foundry but not with Model.Prank on [{hist}] "
+                     f"observed={replay['observed']} model={replay['model']} trace={replay.get('trace')}")
+        ctx.count("prank:model-stale")
+        return
     if model_ok:
         pending.append((toks, hist, replay, impl_err, s_err))
     else:
@@ -482,9 +560,28 @@ def compare_prank(ctx, D, case, scn, sr, args, toks, model, spec, pending):
             idx = next((j for j in range(max(len(got), len(exp_s))) if j >= len(got) or j >= len(exp_s) or got[j] != exp_s[j]), None)
         ev = None
         if idx is not None:
-            enter_toks = [t for t in toks if t.startswith("cr:") or (t.startswith("c:") and t.endswith(":1"))]
-            if idx // 2 < len(enter_toks):
-                ev = opclass(enter_toks[idx // 2]) + (":origin" if idx % 2 else ":sender")
+            # which word of the buffer: walk the tokens the way expected_buffer does
+            words = []
+            for t in toks:
+                if t.startswith("bal:"):
+                    words.append("balance-after-value-transfer")
+                elif t.startswith("cr:") or (t.startswith("c:") and t.endswith(":1")):
+                    words += [opclass(t) + ":sender", opclass(t) + ":origin"]
+            if idx < len(words):
+                ev = words[idx]
+                # the call / prank-family event that precedes the deviating observation (usually the culprit)
+                pos, seen = None, 0
+                for n_t, t in enumerate(toks):
+                    w = 1 if t.startswith("bal:") else 2 if (t.startswith("cr:") or (t.startswith("c:") and t.endswith(":1"))) else 0
+                    if seen + w > idx:
+                        pos = n_t
+                        break
+                    seen += w
+                prev = next((t for t in reversed(lean_toks(toks[:pos] if pos is not None else [])) if t != "ret" and not t.startswith("tx:")), None)
+                if toks[pos].startswith("bal:"):
+                    prev = next((t for t in reversed(toks[:pos]) if t.startswith("c:")), prev)
+                if prev:
+                    ev += ":after-" + opclass(prev)
         ctx.violation(f"prank:{k}:{ev or 'n/a'}",
                       f"history [{hist}]: halmos observes {replay['observed']} / error={impl_err}; Spec.Foundry {replay['spec']} / "
                       f"error={s_err}; Model.Prank {replay['model']} / error={m_err}", replay)
@@ -493,7 +590,7 @@ def compare_prank(ctx, D, case, scn, sr, args, toks, model, spec, pending):
 ALPHABET = [
     ("p", 0xA11CE), ("p2", 0xA11CE, 0x0716), ("sp", 0xB0B), ("sp2", 0xB0B, 0x0717), ("stop",),
     ("rep", "c"), ("rep", "s"), ("rep", "d"), ("cr",),
-    ("cheat", "vm"), ("cheat", "svm"), ("cheat", "console"), ("eoa", "c"),
+    ("cheat", "vm"), ("cheat", "svm"), ("cheat", "console"), ("eoa", "c"), ("eoav", 3), ("pre", "c"),
     ("nest", "c", [("rep", "c")]),
     ("nest", "c", [("p", 0xCA11), ("rep", "c"), ("rep", "c")]),
     ("nest", "d", [("rep", "c"), ("sp2", 0xD00D, 0xD00E), ("rep", "s")]),
@@ -534,7 +631,13 @@ def random_ops(rng, n, depth, is_main, nargs, pool, static=False):
         elif r < 0.76:
             ops.append(("cheat", rng.choice(["vm", "vmdeal", "svm", "console", "vmstatic"])))
         elif r < 0.80:
-            ops.append(("eoa", rng.choice(["c", "s", "d", "cc"])))
+            q = rng.random()
+            if q < 0.4:
+                ops.append(("eoa", rng.choice(["c", "s", "d", "cc"])))
+            elif q < 0.7 or static or nargs:
+                ops.append(("pre", rng.choice(["c", "s", "d", "cc"])))
+            else:
+                ops.append(("eoav", rng.randrange(1, 10)))
         elif r < 0.94 and depth > 0:
             kind = rng.choice(["c", "c", "s", "d", "cc"])
             ops.append(("nest", kind, random_ops(rng, rng.randrange(0, 4), depth - 1, False, 0, pool, static or kind == "s")))
@@ -572,6 +675,13 @@ DIRECTED = [
     [("sp2", 0xB0B, 0x0717), ("nest", "d", [("rep", "c"), ("rep", "d")]), ("rep", "cc")],
     [("p", 0xA11CE), ("eoa", "c"), ("rep", "c")], [("p", 0xA11CE), ("eoa", "s"), ("rep", "c")],
     [("p", 0xA11CE), ("rep", "cc"), ("rep", "c")],
+    # code-less accounts and precompiles are ordinary call targets: the next call, whatever its target, takes the prank
+    [("p", 0xA11CE), ("eoav", 3), ("rep", "c")], [("p", 0xA11CE), ("pre", "c"), ("rep", "c")], [("p", 0xA11CE), ("pre", "s"), ("rep", "c")],
+    [("sp", 0xB0B), ("eoav", 3), ("eoav", 4), ("stop",), ("eoav", 5), ("rep", "c")],
+    [("p2", 0xA11CE, 0x0716), ("eoav", 1), ("eoav", 2), ("rep", "c")],
+    [("p", 0xA11CE), ("nest", "c", [("eoav", 7), ("p", 0xB0B), ("eoav", 2), ("rep", "c")]), ("eoav", 1)],
+    [("sp", 0xB0B), ("nest", "d", [("eoav", 7)]), ("pre", "d"), ("pre", "cc"), ("eoav", 1)],
+    [("p", 0xA11CE), ("cheat", "vm"), ("eoav", 9), ("rep", "c"), ("bal", 0xA11CE), ("bal", MAIN), ("bal", EOA)],
     # pranking to the special addresses themselves
     [("p", HEVM), ("rep", "c")], [("p", 0), ("rep", "c"), ("rep", "c")], [("p2", A160 - 1, 0), ("rep", "c"), ("rep", "c")],
 ]
@@ -605,7 +715,7 @@ def prank_part(ctx):
             cases.append(PrankCase([clone(o) for o in combo], 0, f"exh{n}"))
             n_ex += 1
     scope = (f"all histories of length <= {max_len} over the {len(ALPHABET)}-symbol alphabet {{prank, prank2, startPrank, startPrank2, "
-             f"stopPrank, call/staticcall/delegatecall reporter, create, vm/svm/console cheat call, call to no-code account, 3 "
+             f"stopPrank, call/staticcall/delegatecall reporter, create, vm/svm/console cheat call, call to no-code account without and with value, identity precompile, 3 "
              f"nested-frame shapes}} that contain a prank-family op (plus all of length <= 2): {n_ex} programs")
     if ctx.tier != "quick":
         small = [ALPHABET[i] for i in (0, 1, 3, 4, 5, 7, 8, 10, 11, 14)]
@@ -1355,6 +1465,7 @@ def correspond(ctx):
     check_selectors()
     _imports()
     quiet_halmos()
+    STALE.clear()
     t0 = time.time()
     run_corpus(ctx)
     prank_part(ctx)
@@ -1366,6 +1477,8 @@ def correspond(ctx):
     create_part(ctx)
     t4 = time.time()
     ctx.extra["phase_wall_s"] = {"prank": round(t1 - t0, 1), "later_tx": round(t2 - t1, 1), "state": round(t3 - t2, 1), "create": round(t4 - t3, 1)}
+    if STALE:
+        raise RuntimeError(STALE[0] + (f" (+{len(STALE) - 1} more histories)" if len(STALE) > 1 else ""))
 
 
 def replay(ctx, data) -> bool:
@@ -1380,7 +1493,7 @@ def replay(ctx, data) -> bool:
         scn = D.Scenario(dict(comp.contracts), nargs=case.nargs)
         sr = sym_run(D, scn)
         toks = ["tx:cafe:beef:1000"] + flatten(case.ops, args, {"created": 0})
-        rep = ctx.lean("Prank").ask(["hist " + " ".join(toks)])[0]
+        rep = ctx.lean("Prank").ask(["hist " + " ".join(lean_toks(toks))])[0]
         m, s = parse_hist_reply(rep)
         pending = []
         try:
